@@ -1,5 +1,6 @@
 import NurbsVerif.Model.Shape
 import NurbsVerif.Model.Knots2
+import NurbsVerif.Model.RefineA54
 import NurbsVerif.Model.Transform
 import NurbsVerif.Driver.Parse
 /- shape parsing / printing and the knot-operation ops (C04 …) -/
@@ -126,6 +127,23 @@ def handleShape (toks : List String) : Option String :=
       | some l => if l.isEmpty && add.isEmpty then return "ERR" else pure ()
       | none => pure ()
       match knotRefinementOf p U P kl add dens tolMult with
+      | some (kv, cp) => return s!"{showList kv} {showPts cp}"
+      | none => return "ERR"
+  -- A5.4 as coded (literal transcription `refineA54`) for an explicit list X of knots to insert
+  | ["refa54", p, us, ps, xs] => do
+      let p ← p.toNat?; let U ← parseList us; let P ← parsePts ps; let X ← parseList xs
+      if p = 0 || U.length != P.length + p + 1 || !isSortedB U || X.isEmpty then return "ERR"
+      let (kv, cp) := refineA54 p U P X tolMult
+      return s!"{showList kv} {showPts cp}"
+  -- the whole helper call: X as the code computes it (`refineXOf`), then A5.4 as coded
+  | ["refa54h", p, us, ps, kl, add, dens] => do
+      let p ← p.toNat?; let U ← parseList us; let P ← parsePts ps; let add ← parseList add; let dens ← dens.toNat?
+      let kl ← (if kl == "default" then some none else (parseList kl).map some)
+      if p = 0 || U.length != P.length + p + 1 || !isSortedB U || dens = 0 then return "ERR"
+      match kl with
+      | some l => if l.isEmpty && add.isEmpty then return "ERR" else pure ()
+      | none => pure ()
+      match knotRefinementA54 p U P kl add dens tolMult with
       | some (kv, cp) => return s!"{showList kv} {showPts cp}"
       | none => return "ERR"
   | "split" :: rest => do
